@@ -92,6 +92,13 @@ Theorem get_frame : forall s l n,
   dfind (disk (fst (get s l))) n = dfind (disk s) n \/ dfind (disk (fst (get s l))) n = None.
 Proof. exact get_frame. Qed.
 
+(* sequential and parallel download modes give the same results: whenever either mode completes
+   all downloads of a request, the other mode produces exactly the same state and success flags
+   (parallel = chunks of five misses, each chunk sequential, all chunks awaited) *)
+Theorem parallel_iff_sequential : forall s ms s' bs,
+  download_all s ms = (s', bs, DlOk) <-> download s ms = (s', bs, DlOk).
+Proof. intros s ms s' bs. split; [apply parallel_equals_sequential | apply sequential_equals_parallel]. Qed.
+
 (* non-vacuity: a concrete 3-URI history that forces two evictions satisfies every premise *)
 Definition ex_q (r : nat) := mkreq r 0 None None (DOk 0).
 Definition ex_hist : list op := [Get [ex_q 0; ex_q 1]; Get [ex_q 2]; Get [ex_q 0; ex_q 1]].
